@@ -23,11 +23,21 @@ def hostile_alphabet(box):
     return ["..", ".", "", outside, outside + "/x", "a/../../b", "../" * 3 + "up", "../../..",
             "../" * 12 + "deep", "ok", "sub", "a/b", "/", "..//..", "./../x", "ok/..", "…",
             "../dest2", "../dest.bak", "../destX/y", "../../y/dest", "//" + box.lstrip("/"),
-            "..", "../dest", "../dest", "../dest", "../dest", "..\\..\\created", "x\\..\\..\\..\\victim", "..\\byname", "\\", "..\\"]
+            "..", "../dest", "../dest", "../dest", "../dest", "..\\..\\created", "x\\..\\..\\..\\victim", "..\\byname", "\\", "..\\",
+            # '..' in disguise (invisible / control characters) and an element too long to create
+            ".\u202e.", ".\u200e.", "\u200b..", ".\x7f.", "..\n", "..\u200d", "x" * 300]
 
 
-def gen_meta(rng, box):
+def gen_meta(rng, box, forced=None):
     alpha = hostile_alphabet(box)
+    if forced:
+        # fixed shapes every run includes: two entries that normalise to ONE target (the later one
+        # longer), for each meta version
+        version, single, name = forced, False, "pack"
+        files = [(("f0.bin",), b"A" * 10), (("ok/..", "f0.bin") if forced == 1 else ("sub", "..", "f0.bin"),
+                                            b"A" * 10 + b"+" * (PL + 1)), (("g.bin",), b"G" * 5)]
+        meta = refspec.ref_metafile(name, files, PL, version, single=False, trailing_pad=True, with_length=True)
+        return meta, name, files, version, single
     version = rng.choice([1, 1, 2, 3])
     single = rng.random() < 0.25
     name = rng.choice(alpha) if rng.random() < 0.65 else rng.choice(["ok", "sub", "pack"])
@@ -38,7 +48,7 @@ def gen_meta(rng, box):
         last = rng.choice(["f%d.bin" % i, "f%d.bin" % i, "f%d.bin" % i, "..", ""])
         data = bytes([65 + i]) * rng.choice([0, 10, PL, PL + 7])
         files.append((tuple(comps + [last]), data))
-    if not single and files and files[0][0][-1] not in ("..", "") and rng.random() < 0.15:
+    if not single and files and files[0][0][-1] not in ("..", "") and rng.random() < 0.3:
         # two entries that normalise to ONE target, the later one longer: the second placement
         # overwrites the first inside the destination - and must touch nothing else
         first, data = files[0]
@@ -71,11 +81,17 @@ def run_case(run, drv, case_seed):
     rng = random.Random(case_seed)
     with sandbox("c19") as box:
         base = os.path.join(box, "w", "x", "y")
-        meta, name, files, version, single = gen_meta(rng, box)
+        meta, name, files, version, single = gen_meta(rng, box, forced=-case_seed if case_seed < 0 else None)
         dname = "dest"
-        if name and "/" not in name and name not in (".", "..") and rng.random() < 0.5:
+        if name and "/" not in name and name not in (".", "..") and len(name.encode("utf8")) < 200 \
+                and "\n" not in name and rng.random() < 0.5:
             dname = name            # destination directory named like the torrent
         dest = os.path.join(base, dname)
+        if rng.random() < 0.3:
+            # the destination is the only thing in its parent and grandparent: whatever clean-up
+            # runs after a failed placement must stop at the destination
+            dest = os.path.join(base, "solo", "nest", dname)
+        relname = os.path.relpath(dest, base)     # the destination as a relative string from `base`
         os.makedirs(dest)
         os.makedirs(os.path.join(box, "outside"))
         linked = rng.random() < 0.2
@@ -84,7 +100,7 @@ def run_case(run, drv, case_seed):
             # working directory is somewhere else: everything still lands in the real directory
             os.makedirs(os.path.join(base, "store"), exist_ok=True)
             os.rename(dest, os.path.join(base, "store", "real-" + dname))
-            os.symlink(os.path.join("store", "real-" + dname), dest)
+            os.symlink(os.path.relpath(os.path.join(base, "store", "real-" + dname), os.path.dirname(dest)), dest)
         raw = refspec.encode(meta)
         mpath = os.path.join(base, "h.torrent")
         with open(mpath, "wb") as fd:
@@ -121,12 +137,12 @@ def run_case(run, drv, case_seed):
             # the same relative destination string used from two working directories in one
             # process: each run may only write below ITS destination
             other = os.path.join(box, "w", "elsewhere")
-            os.makedirs(os.path.join(other, dname))
+            os.makedirs(os.path.join(other, relname))
             os.chdir(other)
             try:
-                with effects.traced(fence=[os.path.join(other, dname)]) as tr0:
+                with effects.traced(fence=[os.path.join(other, relname)]) as tr0:
                     try:
-                        impl.rebuild([mpath], [search], dname)
+                        impl.rebuild([mpath], [search], relname)
                     except Exception:
                         pass
             finally:
@@ -134,8 +150,8 @@ def run_case(run, drv, case_seed):
             # empty the first destination again: anything that turns up there later was
             # written by the second run, which was given a different destination
             import shutil as _sh
-            _sh.rmtree(os.path.join(other, dname), ignore_errors=True)
-            os.makedirs(os.path.join(other, dname))
+            _sh.rmtree(os.path.join(other, relname), ignore_errors=True)
+            os.makedirs(os.path.join(other, relname))
             if tr0.escapes:
                 run.fail("impl-vs-spec", dict(case_stub(case_seed, version, single, name, files), relative="first"),
                          {"why": "attempted to write outside the destination",
@@ -149,9 +165,9 @@ def run_case(run, drv, case_seed):
             with effects.traced(fence=[dest, realdest]) as tr:
                 try:
                     if via_cli:     # the command-line entry point (commands.rebuild)
-                        impl.cli(["rebuild", "-m", mpath, "-c", search, "-d", dname if relative else dest])
+                        impl.cli(["rebuild", "-m", mpath, "-c", search, "-d", relname if relative else dest])
                     else:
-                        impl.rebuild([mpath], [search], dname if relative else dest)
+                        impl.rebuild([mpath], [search], relname if relative else dest)
                 except effects.Escape:
                     raised = "Escape"
                 except BaseException as exc:  # noqa
@@ -194,7 +210,7 @@ def run(tier, seed, replay=None):
     run = Run("C19", tier, seed, RULE)
     drv = Driver()
     seeds = [replay["case"]["case_seed"]] if replay else \
-        [run.rng.randrange(10 ** 9) for _ in range(300 if tier == "quick" else 3000)]
+        [-1, -2, -3] + [run.rng.randrange(10 ** 9) for _ in range(300 if tier == "quick" else 3000)]
     for s in seeds:
         guarded(run, {"case_seed": s}, run_case, run, drv, s)
     for (case, got), req, out in drv.run():
